@@ -175,6 +175,138 @@ func ruleRecurGuard(r *Run) {
 			fmt.Sprintf("%s calls itself at %s; %s", shortName(fn), p.pos(recCalls[0].Pos()), detail))
 	}
 	r.Count("recursive_style_functions", n)
+	// The same walk written as a loop: `for { s = registry[s.BasedOn.Val] … }`.  A loop that follows
+	// based-on (it reads Style.BasedOn and is not a range over a finite collection) needs a visited
+	// set that it consults and extends, or a step counter with a bound — stopping only "when the walk
+	// is back at the start" does not terminate on a cycle that does not contain the start.
+	nl := 0
+	for _, fn := range p.ModFuncs() {
+		if fn.Pkg == nil || (fn.Pkg.Pkg.Path() != pkgSty && fn.Pkg.Pkg.Path() != pkgDoc) {
+			continue
+		}
+		for li, l := range naturalLoops(fn) {
+			if rangeOf(l) != nil || isBoundedRange(l) {
+				continue
+			}
+			readsBasedOn := false
+			for b := range l.Body {
+				for _, in := range b.Instrs {
+					var fv *types.Var
+					switch x := in.(type) {
+					case *ssa.FieldAddr:
+						fv, _ = fieldOfAddr(x)
+					case *ssa.Field:
+						fv, _ = fieldOfVal(x)
+					}
+					if fv != nil && fv.Name() == "BasedOn" {
+						if o := fieldOwner(p, fv); o != nil && o.Obj().Pkg().Path() == pkgSty && o.Obj().Name() == "Style" {
+							readsBasedOn = true
+						}
+					}
+				}
+			}
+			if !readsBasedOn {
+				continue
+			}
+			nl++
+			guard := ""
+			// (a) a map consulted and updated inside the loop
+			looked, updated := map[string]bool{}, map[string]bool{}
+			for b := range l.Body {
+				for _, in := range b.Instrs {
+					switch x := in.(type) {
+					case *ssa.Lookup:
+						if _, isMap := x.X.Type().Underlying().(*types.Map); isMap {
+							looked[mapIdent(x.X)] = true
+						}
+					case *ssa.MapUpdate:
+						updated[mapIdent(x.Map)] = true
+					}
+				}
+			}
+			for k := range looked {
+				if updated[k] && k != "" {
+					guard = "a visited set (map) is consulted and extended on every step"
+				}
+			}
+			// (b) an integer counter of the loop, stepped in the body and compared
+			if guard == "" {
+				for _, in := range l.Header.Instrs {
+					ph, ok := in.(*ssa.Phi)
+					if !ok {
+						continue
+					}
+					if bt, ok := ph.Type().Underlying().(*types.Basic); !ok || bt.Info()&types.IsInteger == 0 {
+						continue
+					}
+					stepped, compared := false, false
+					for _, e := range ph.Edges {
+						if bo, ok := e.(*ssa.BinOp); ok && (bo.Op == token.ADD || bo.Op == token.SUB) && bo.X == ssa.Value(ph) && l.Body[bo.Block()] {
+							stepped = true
+						}
+					}
+					if ph.Referrers() != nil {
+						for _, u := range *ph.Referrers() {
+							if bo, ok := u.(*ssa.BinOp); ok && l.Body[bo.Block()] {
+								switch bo.Op {
+								case token.LSS, token.GTR, token.LEQ, token.GEQ:
+									compared = true
+								}
+							}
+						}
+					}
+					if stepped && compared {
+						guard = "a step counter is advanced and compared with a bound"
+					}
+				}
+			}
+			// (c) a list of the ids seen so far, searched and extended
+			if guard == "" {
+				appended := map[string]bool{}
+				searched := map[string]bool{}
+				for b := range l.Body {
+					for _, in := range b.Instrs {
+						if c, ok := in.(*ssa.Call); ok {
+							if bi, ok := c.Call.Value.(*ssa.Builtin); ok && bi.Name() == "append" && len(c.Call.Args) > 0 {
+								if sl, ok := c.Call.Args[0].Type().Underlying().(*types.Slice); ok && isStringType(sl.Elem()) {
+									appended["[]string"] = true
+								}
+							}
+						}
+					}
+				}
+				for _, inner := range naturalLoops(fn) {
+					if inner == l || !l.Body[inner.Header] {
+						continue
+					}
+					if ri := rangeOf(inner); ri != nil {
+						if sl, ok := ri.X.Type().Underlying().(*types.Slice); ok && isStringType(sl.Elem()) {
+							searched["[]string"] = true
+						}
+					}
+				}
+				if appended["[]string"] && searched["[]string"] {
+					guard = "a list of the ids already followed is searched and extended on every step"
+				}
+			}
+			r.Check("recur-guard", fmt.Sprintf("%s:loop#%d", shortName(fn), li), l.Header.Instrs[0].Pos(), guard != "",
+				fmt.Sprintf("%s follows the based-on chain in a loop; %s", shortName(fn), map[bool]string{true: guard, false: "it keeps neither a visited set nor a step bound: a based-on cycle (one that need not contain the style the walk started from) makes it spin forever"}[guard != ""]))
+		}
+	}
+	r.Count("based_on_following_loops", nl)
+}
+
+// mapIdent: identity of a map value for "the same map": the access path of a field/variable, or the
+// SSA value's name for locals.
+func mapIdent(v ssa.Value) string {
+	if ld, ok := v.(*ssa.UnOp); ok && ld.Op == token.MUL {
+		return pathString(ld.X)
+	}
+	if ph, ok := v.(*ssa.Phi); ok {
+		// a map that is created lazily (nil until needed) merges at a phi: identify by the phi's comment
+		return "phi:" + ph.Comment
+	}
+	return v.Name()
 }
 
 // ---------------------------------------------------------------------------
